@@ -104,6 +104,9 @@ def _inject(model, k, exc=None):
 
 def _batch(kind, dt):
     x = models.probe_input("mlp", dt, 0)
+    if kind == "h":
+        # an input of another float dtype than the model (a float32 model fed half-precision activations)
+        return x.to(torch.float16 if x.dtype != torch.float16 else torch.float32)
     return torch.zeros_like(x) if kind == "z" else x
 
 
@@ -116,6 +119,9 @@ def _events(w, tier):
     for name in ("A", "B", "F"):
         ev.append(f"fwd:{name}:n")
     ev.append("fwd:A:z")
+    if w.cfg["a"] is not None and not w.stack:
+        # inference only: calibrating a model with batches of another dtype is a usage error, not a side-effect question
+        ev += ["fwd:B:h", "fwd:A:h"]
     ev.append("new")
     ev += ["ext_ok", "ext_fault"]
     if w.faults < 2:
@@ -146,7 +152,11 @@ def _apply(w, ev):
     elif ev.startswith("fwd:"):
         _, name, kind = ev.split(":")
         with torch.no_grad():
-            w.model(name)(_batch(kind, dt))
+            try:
+                w.model(name)(_batch(kind, dt))
+            except RuntimeError:
+                if kind != "h":
+                    raise  # a dtype mismatch on a foreign-dtype input is acceptable; side effects are still judged
     elif ev == "new":
         w.newcount += 1
         m = models.build_quantized("lin", dt, w.cfg["w"], w.cfg["a"])
@@ -281,6 +291,25 @@ def _explore(cfg, tier, only=None):
                 if float(q.input_scale) != 1.0 or float(q.output_scale) != 1.0:
                     viol.append(violation(PID, case, dict(fields, sub="new_model_calibrated"), f"new_model_calibrated: a model created and run after all contexts were left had its scales changed ({hist})"))
                     break
+        # I7: once every context is left (normally or through an exception) a model behaves like a replica rebuilt from its
+        # state_dict that never was inside a context (no residue in module attributes that the state_dict does not carry)
+        if not w.stack and (ev == "exit" or fired):
+            for name in ("A", "B"):
+                try:
+                    src = w.model(name)
+                    rep = models.build_quantized(cfg.get("A", "idiv") if name == "A" else "mlp", cfg["dt"], cfg["w"], cfg["a"])
+                    if name == "B":
+                        from optimum.quanto import freeze
+
+                        freeze(rep)
+                    rep.load_state_dict(src.state_dict())
+                    with torch.no_grad():
+                        xs = _batch("n", cfg["dt"])
+                        ya, yb = src(xs), rep(xs)
+                    if type(ya) is not type(yb) or lifecycle.out_bytes(ya) != lifecycle.out_bytes(yb):
+                        viol.append(violation(PID, case, dict(fields, sub="residue_after_context"), f"residue_after_context: after leaving every context ({'exception' if fired else 'normal exit'}) model {name} returns {type(ya).__name__} / other values than a replica rebuilt from its state_dict ({type(yb).__name__}) (history {hist}, event {ev})"))
+                except Exception as e:  # noqa
+                    viol.append(violation(PID, case, dict(fields, sub="residue_after_context"), f"residue_after_context: comparing model {name} with a replica raised {type(e).__name__}: {str(e)[:160]} (history {hist}, event {ev})"))
         # I5: reproducibility outside contexts
         if not w.stack and ev.startswith("fwd:"):
             name = ev.split(":")[1]
